@@ -12,6 +12,11 @@ ENG = {
 
 # id: (engine, category, technique, level text, level note, design ref)
 CHECKS = {
+ "C07": ("E3", "model_checking",
+   "exhaustive product of sign->verify round trips through the real signing API (6 key specs x 2 formats x 4 signer kinds incl. raw-signature and envelope plugins x 11 targets x 3 metadata maps x 3 expiry durations x 2 agents; quick: RSA-3072/4096 and the 1 MiB blob on a diagonal) fed to the real verification API; equality oracle on what was signed vs what is reported + independent re-verification",
+   "Every tuple is signed by the real GenericSigner/PluginSigner (notation.SignBlob / Signer.Sign / SignOCI) and verified by the real verifier / notation.VerifyBlob / notation.Verify; payload, digest algorithm bound to the key, expiry = signing time + duration, returned blob descriptor and UserMetadata() are compared with what the generator asked to sign; lib/refsig re-verifies the bytes.",
+   "Trusted: lib/refsig, the in-process scripted plugins in harness/c07. A signing error on a legal input is reported as a violation (the statement presupposes every supported key can sign).",
+   "DESIGN.md section 5 C07"),
  "C06": ("E3", "model_checking",
    "exhaustive enumeration of a time-line product (scheme x tsa store in policy x verifyTimestamp x 3x3 certificate windows x 4 signing times x 4 expiries x 11 countersignature states forged by an offline RFC 3161 authority x 4 TSA revocation answers x format; quick: all cases with <= 5 deviations, thorough: full product) on the real verifier; reference clock model",
    "Every case is verified by the real verifier under an all-log level (both results always reported) and under strict; the expiry and authentic-timestamp results and the strict verdict are compared with the reference clock model of DESIGN.md appendix A.2. All instants are >= 1 h away from the verification instant, so each case has one outcome whenever it runs.",
